@@ -227,6 +227,37 @@ func c11Match(m *MixMatcher, wire []byte) (ok bool, err error) {
 	return m.Match(wire), nil
 }
 
+// c11Octets: every octet value as the first octet of a label. As a plain / full entry (raw octets; A-Z fold to a-z, nothing else does),
+// and as a regexp entry written against the documented text form of that octet (letters, digits and '-' as they are, everything
+// else as \DDD), queried with the same octet, its lower-case form, and two neighbours (b^1, b^0x20).
+func c11Octets(rep *report.R, lo, hi int) {
+	for v := lo; v <= hi; v++ {
+		if !report.Owns(v) && lo != hi {
+			continue
+		}
+		b := byte(v)
+		lab := []byte{b, 'x'}
+		var names [][][]byte
+		for _, o := range []byte{b, c11Lower([]byte{b})[0], b ^ 1, b ^ 0x20} {
+			names = append(names, [][]byte{{o, 'x'}, []byte("test")}, [][]byte{[]byte("w"), {o, 'x'}, []byte("test")})
+		}
+		var sets [][]string
+		re := "regexp:^" + regexp.QuoteMeta(string(c11Text([][]byte{lab}))) + `\.test$`
+		sets = append(sets, []string{re})
+		if !bytes.ContainsAny([]byte{b}, "#\n\r \t\v\f.:") { // (white space around an entry is trimmed: \v and \f count as white space too)
+			raw := string(lab) + ".test"
+			sets = append(sets, []string{raw}, []string{"full:" + raw}, []string{"domain:w." + raw, re})
+		}
+		for vi, lines := range sets {
+			var rs []c11Ref
+			for _, ln := range lines {
+				rs = append(rs, c11ParseEntry([]byte(ln)))
+			}
+			c11Check(rep, fmt.Sprintf("octet=%#02x:entries#%d", b, vi), true, [][]byte{[]byte(strings.Join(lines, "\n") + "\n")}, rs, names, map[string]any{"Family": "octet", "N": v})
+		}
+	}
+}
+
 func TestVerifC11(t *testing.T) {
 	rep := report.New(c11P + " domain matcher vs set reference")
 	defer rep.Write()
@@ -257,6 +288,8 @@ func TestVerifC11(t *testing.T) {
 			c11LineLengths(rep, x.N, x.N)
 		case "fan-out":
 			c11FanOut(rep, 40)
+		case "octet":
+			c11Octets(rep, x.N, x.N)
 		default:
 			c11Run(rep, entries, refs, names, wires, x.Seq, x.Variant)
 		}
@@ -265,6 +298,7 @@ func TestVerifC11(t *testing.T) {
 	rep.Rule = fmt.Sprintf("all entry sequences (with repetition) of length 0..%d over a %d-entry alphabet x %d file layouts x %d query names; "+
 		"distinct = distinct (entry set, name, verdict) triples; every case is non-trivial by construction (entries are parents/children/duplicates/case variants of each other and of the names); "+
 		"plus a label-length sweep (every label length 1..63 x 4 octet styles as entry label / parent / child / tld / full:, queried with the same label, a sibling differing in the last octet, one octet shorter and longer, children) "+
+		"an octet sweep (every octet value 0..255 as the first octet of a label: raw in a plain / full: entry, and in a regexp entry written against its text form; queried with the octet, its lower-case form and two neighbours) "+
 		"a fan-out sweep (a node with 1..40 children, one of them with a deeper entry, its own entry loaded first / in the middle / last / not at all) "+
 		"and a line-length sweep (every line length 0..%d in 6 file templates: long comment after an entry, long comment line, leading / trailing blanks, long regexp entry, long last line without newline; "+
 		"the comment text is made of dotted labels so that any piece of it read as an entry matches one of the 130 queried names)",
@@ -292,6 +326,7 @@ func TestVerifC11(t *testing.T) {
 	rec(nil)
 	c11LabelLengths(rep, 1, 63)
 	c11FanOut(rep, 40)
+	c11Octets(rep, 0, 255)
 	if c11P == "C11" {
 		c11LineLengths(rep, 0, report.ParamInt("MAXLINE", 9000))
 	}
